@@ -224,6 +224,10 @@ Conformance(ll, what, r, fns, e, own) ==
       blame ==    (IF leaves # {} THEN own2 \cup FieldOwners(leaves, cur.t.alt, what = "rs") ELSE {})
               \cup (IF okP THEN {} ELSE {"C03"})
               \cup (IF okSb \/ what = "rs" THEN {} ELSE own2)
+              (* a resize after which the characters are where they should be but some cell lost or changed its pen *)
+              \cup (IF what = "rs" /\ "buf.lines" \in leaves /\ PenDivergence(a.buf.lines, b.buf.lines) THEN {"C08"} ELSE {})
+              (* a divergence that leaves the cursor outside the screen: every statement about where the cursor may be *)
+              \cup (IF leaves # {} /\ (cur.t.row >= cur.t.rows \/ cur.t.col > cur.t.cols) THEN {"C02", "C05"} ELSE {})
       detail == " fns=" \o S(FnNames(fns))
                 \o (IF okT THEN "" ELSE " tdiff=" \o S(leaves))
                 \o (IF okP THEN "" ELSE " parser: spec=" \o ToJson(r.vt.p) \o " impl=" \o ToJson(cur.p))
@@ -244,8 +248,13 @@ Handle(ll, e) ==
      msgs |-> (IF f = e.st THEN <<>> ELSE <<Msg("CONF", ll, "what=new owners={\"C19\"} tdiff=" \o S(TermDiff(f.t, e.st.t)))>>)
               \o StateMsgs(ll, e.st, <<>>, e.st, e)]
   ELSE IF k = "panic" THEN
+    (* a call that panics did not do what its input asks for either: the owners of the functions it carried *)
+    LET fns == IF "s" \in DOMAIN e /\ e.slot > 0 /\ vts[e.slot] # Dead THEN Functions(vts[e.slot].p, e.s) ELSE <<>>
+        own == IF ~("s" \in DOMAIN e) \/ e.slot = 0 \/ vts[e.slot] = Dead THEN {} ELSE IF fns = <<>> THEN {"C20"} ELSE Owners(fns)
+    IN
     [vts |-> IF e.slot = 0 THEN vts ELSE [vts EXCEPT ![e.slot] = Dead], gh |-> gh,
-     msgs |-> <<Msg("FAIL C01", ll, "panic in " \o e.op \o ": " \o e.msg)>>]
+     msgs |-> <<Msg("FAIL C01", ll, "panic in " \o e.op \o ": " \o e.msg)>>
+              \o (IF own = {} THEN <<>> ELSE <<Msg("CONF", ll, "what=panic owners=" \o S(own) \o " fns=" \o S(FnNames(fns)))>>)]
   ELSE IF k \in {"fs", "fc", "rs"} THEN
     LET s == e.slot  prev == vts[s]  cur == e.st IN
     IF prev = Dead THEN [vts |-> vts, gh |-> gh, msgs |-> <<>>]
@@ -260,7 +269,13 @@ Handle(ll, e) ==
         g1 == GhostStep(gh[s], prev, fns, cur, IF k = "fc" THEN <<>> ELSE e.dr)
         g1b == [g1 EXCEPT !.lastClean = e.clean]
         g2 == IF k = "rs" THEN [g1b EXCEPT !.resized = TRUE, !.snapResized = TRUE, !.savP.moved = TRUE, !.savA.moved = TRUE] ELSE g1b
-    IN [vts |-> [vts EXCEPT ![s] = cur], gh |-> [gh EXCEPT ![s] = g2],
+    IN IF ~Sane(cur)
+       THEN [vts |-> [vts EXCEPT ![s] = Dead], gh |-> gh,
+             msgs |-> Conformance(ll, k, r, fns, e2, own)
+                      \o (IF GeomOK(cur) THEN <<>> ELSE <<Msg("FAIL C02", ll, "geometry")>>)
+                      \o <<Msg("DRIFT", ll, "state outside the specification's domain: this terminal is not judged any further (a later panic still counts)")>>]
+       ELSE
+       [vts |-> [vts EXCEPT ![s] = cur], gh |-> [gh EXCEPT ![s] = g2],
         msgs |-> Conformance(ll, k, r, fns, e2, own)
                  \o StateMsgs(ll, prev, IF k = "rs" THEN <<>> ELSE fns, cur, e)
                  \o (IF k = "fc" THEN <<>> ELSE CallMsgs(ll, prev, cur, e))
